@@ -33,6 +33,10 @@ func IOCodec(rwc io.ReadWriteCloser) *jsonCodec {
 type jsonCodec struct {
 	rwc        io.ReadWriteCloser
 	remoteAddr string
+
+	// dec is kept across reads because a json.Decoder reads ahead: bytes of
+	// the next message that arrived in the same read are buffered inside it.
+	dec *json.Decoder
 }
 
 func (codec *jsonCodec) RemoteAddr() string {
@@ -40,8 +44,15 @@ func (codec *jsonCodec) RemoteAddr() string {
 }
 
 func (codec *jsonCodec) ReadMessage() (*Message, error) {
+	if codec.dec == nil {
+		codec.dec = json.NewDecoder(codec.rwc)
+	}
 	var msg Message
-	err := json.NewDecoder(codec.rwc).Decode(&msg)
+	err := codec.dec.Decode(&msg)
+	if err != nil {
+		// Decoder errors are sticky, start over on the next read.
+		codec.dec = nil
+	}
 	return &msg, err
 }
 
